@@ -39,6 +39,9 @@ type replayIn struct {
 	Path   string   `json:"path,omitempty"`
 	N      int      `json:"n,omitempty"`
 	Note   string   `json:"note,omitempty"`
+	// kind "history": steps on one long-lived buffer of length N with Cap spare capacity
+	Cap     int        `json:"cap,omitempty"`
+	History []histStep `json:"history,omitempty"`
 }
 
 func hexes(hs []common.Uint256) []string {
@@ -591,6 +594,10 @@ func replay(c *hx.Ctx, in replayIn) {
 	hs := unhexes(in.Hashes)
 	t := newTable()
 	switch in.Kind {
+	case "history":
+		if f := runHistory(c, in.N, in.Cap, in.History); f != nil {
+			reportHistory(c, in.N, in.Cap, in.History, f)
+		}
 	case "complete":
 		rfc, _ := rfcRoot(hs)
 		oracleComplete(c, hs, rfc, hx.UnHex(in.Data))
@@ -716,6 +723,15 @@ func Run(c *hx.Ctx) {
 	}
 	for _, L := range boundaryLens {
 		listCase(c, 3, true, 0, L)
+	}
+	// 4c. call histories on long-lived, reused slices (implementation only)
+	for _, n := range []int{4, 3, 7, 16, 33, 64} {
+		historyProbe(c, n)
+	}
+	for n := 1; n <= 64; n++ {
+		for r := 0; r < c.N(2, 10); r++ {
+			historyOracle(c, n, 6+c.Intn(5))
+		}
 	}
 	// 5. lists of 1..64 hashes, every member
 	maxN := 64
